@@ -120,7 +120,7 @@ Notation V := (keep_incr pmatch c).
 
 Theorem copy_selects_proof rootst view fs0 fs' log :
   wf_tree view = true ->
-  copy_sel pmatch c (SrcDir rootst view) fs0 = (fs', log, None) ->
+  copy_sel pmatch c false (SrcDir rootst view) fs0 = (fs', log, None) ->
   log = flat_items V view
   /\ map l_st log = flat_reference V view
   /\ (forall q, q <> [] -> fs' q = spec_ent log fs0 q)
@@ -133,7 +133,7 @@ Qed.
 
 Theorem no_extra_dirs_proof rootst view fs0 fs' log :
   wf_tree view = true ->
-  copy_sel pmatch c (SrcDir rootst view) fs0 = (fs', log, None) ->
+  copy_sel pmatch c false (SrcDir rootst view) fs0 = (fs', log, None) ->
   forall e, In e (walk_root view) ->
     V (st_path (fst e)) = false ->
     (forall e', In e' (walk_root view) ->
@@ -154,7 +154,7 @@ Qed.
 
 Theorem lazy_parent_metadata_proof rootst view fs0 fs' log :
   wf_tree view = true ->
-  copy_sel pmatch c (SrcDir rootst view) fs0 = (fs', log, None) ->
+  copy_sel pmatch c false (SrcDir rootst view) fs0 = (fs', log, None) ->
   forall it, In it log -> l_sel it = false ->
     In (l_st it, l_ct it) (walk_root view) /\ st_is_dir (l_st it) = true /\
     match fs0 (l_path it) with
@@ -188,7 +188,7 @@ Qed.
 (* C10: the un-pruned filtered walk reports the flat reference over the incremental verdict *)
 Theorem copy_eq_filter_walk_unpruned_proof rootst view fs0 fs' log :
   wf_tree view = true ->
-  copy_sel pmatch c (SrcDir rootst view) fs0 = (fs', log, None) ->
+  copy_sel pmatch c false (SrcDir rootst view) fs0 = (fs', log, None) ->
   map l_st log = filter_walk pmatch id_map (no_prune c) view.
 Proof.
   intros Hwf H. destruct (copy_selects_proof rootst view fs0 fs' log Hwf H) as (_ & E & _).
@@ -198,7 +198,7 @@ Qed.
 
 Theorem copy_eq_filter_walk_proof rootst view fs0 fs' log :
   prefix_semantics pmatch -> cfg_star_safe c = true -> wf_tree view = true ->
-  copy_sel pmatch c (SrcDir rootst view) fs0 = (fs', log, None) ->
+  copy_sel pmatch c false (SrcDir rootst view) fs0 = (fs', log, None) ->
   map l_st log = filter_walk pmatch id_map c view.
 Proof.
   intros Hsem Hsafe Hwf H.
@@ -238,7 +238,7 @@ Qed.
 
 Theorem copy_eq_naive_proof rootst view fs0 fs' log :
   wf_tree view = true -> wf_strict view = true -> all_paths (nls_path pmatch c) view = true ->
-  copy_sel pmatch c (SrcDir rootst view) fs0 = (fs', log, None) ->
+  copy_sel pmatch c false (SrcDir rootst view) fs0 = (fs', log, None) ->
   log = flat_items (keep_naive pmatch c) view.
 Proof.
   intros Hwf Hst Hn H. destruct (copy_selects_proof rootst view fs0 fs' log Hwf H) as (-> & _).
@@ -251,6 +251,6 @@ Qed.
 End Thms.
 
 (* a non-directory as the source: the patterns are never consulted *)
-Lemma single_file_proof pmatch c pmatch' c' st ct fs :
-  copy_sel pmatch c (SrcFile st ct) fs = copy_sel pmatch' c' (SrcFile st ct) fs.
+Lemma single_file_proof pmatch c pmatch' c' repl st ct fs :
+  copy_sel pmatch c repl (SrcFile st ct) fs = copy_sel pmatch' c' repl (SrcFile st ct) fs.
 Proof. reflexivity. Qed.
